@@ -9,6 +9,7 @@
 package main
 
 import (
+	"strings"
 	"os"
 	"context"
 	"fmt"
@@ -370,7 +371,7 @@ func (w *worker) runPT(i int, p ptCase, name string) {
 		{"type": "MatchTrue", "fieldPath": "spec.forProvider.off"},
 		{"type": "MatchFalse", "fieldPath": "spec.forProvider.on"},
 		{"type": "MatchInteger", "fieldPath": "spec.forProvider.n", "matchInteger": int64(8)},
-		{"type": "MatchCondition", "matchCondition": map[string]any{"type": "Ready", "status": "True"}},
+		{"type": "MatchCondition", "matchCondition": map[string]any{"type": "Ready", "status": "False"}},
 	}
 	for k, o := range p.Outcomes {
 		base := nopObj("NopA", fmt.Sprint(k))
@@ -397,10 +398,23 @@ func (w *worker) runPT(i int, p ptCase, name string) {
 			t["base"] = nopObj("NopInvalid", fmt.Sprint(k))
 		case "renderfail":
 			t["patches"] = []any{map[string]any{"type": "FromCompositeFieldPath", "fromFieldPath": "spec.missing", "toFieldPath": "spec.forProvider.p", "policy": map[string]any{"fromFieldPath": "Required"}}}
+			if rng.IntN(2) == 0 {
+				// the same failure through a Required combine patch one of whose variables is missing
+				t["patches"] = []any{map[string]any{"type": "CombineFromComposite", "toFieldPath": "spec.forProvider.p", "policy": map[string]any{"fromFieldPath": "Required"},
+					"combine": map[string]any{"strategy": "string", "string": map[string]any{"fmt": "%v-%v"}, "variables": []any{map[string]any{"fromFieldPath": "spec.size"}, map[string]any{"fromFieldPath": "spec.missing"}}}}}
+			}
+		}
+		if rng.IntN(3) == 0 {
+			// the template also pulls in a shared PatchSet (inlined by Crossplane before rendering)
+			ps, _ := t["patches"].([]any)
+			t["patches"] = append([]any{map[string]any{"type": "PatchSet", "patchSetName": "common"}}, ps...)
 		}
 		ts = append(ts, t)
 	}
-	world.MustSeed("user", xrk.ResourcesComposition("comp", "ex.org/v1", "XThing", ts))
+	comp := xrk.ResourcesComposition("comp", "ex.org/v1", "XThing", ts)
+	_ = unstructured.SetNestedSlice(comp, []any{map[string]any{"name": "common", "patches": []any{
+		map[string]any{"type": "FromCompositeFieldPath", "fromFieldPath": "spec.size", "toFieldPath": "spec.forProvider.size"}}}}, "spec", "patchSets")
+	world.MustSeed("user", comp)
 	if err := xrk.ReconcileComposition(world, "comp"); err != nil {
 		panic(err)
 	}
@@ -421,6 +435,17 @@ func (w *worker) runPT(i int, p ptCase, name string) {
 	for rec := 0; rec < 3; rec++ {
 		_, _, _ = env.Reconcile("xr1")
 		checkSystemConditions(c, name, "pt", world.GetObj(xrKey), allReady, allSynced, wit)
+		// the provider reports every composed resource Ready=True (what the default readiness check
+		// looks at); the templates' own checks decide all the same
+		prov := world.Client("provider")
+		for _, o := range world.Snapshot() {
+			if !strings.HasPrefix(sim.Str(o, "apiVersion"), "nop.ex.org/") {
+				continue
+			}
+			u := &unstructured.Unstructured{Object: o}
+			_ = unstructured.SetNestedSlice(u.Object, []any{map[string]any{"type": "Ready", "status": "True", "reason": "Available", "lastTransitionTime": "2024-01-01T00:00:00Z"}}, "status", "conditions")
+			_ = prov.Status().Update(context.Background(), u)
+		}
 	}
 	c.Eval("pt|"+kit.JSON(p), !allReady)
 	c.Count("pt_cases", 1)
